@@ -275,6 +275,8 @@ import (
 	"io"
 	"math"
 	"reflect"
+	"slices"
+	"sync"
 	"unsafe"
 
 	"verif/harness/common"
@@ -293,6 +295,8 @@ var (
 	_ = math.Copysign
 	_ = fmt.Sprint
 	_ = reflect.TypeOf
+	_ = slices.Reverse[[]int]
+	_ sync.Once
 	_ unsafe.Pointer
 	_ = hseq.New[struct{}]
 	_ = optics.Morphism[int, int]
@@ -361,6 +365,28 @@ func off[S any, F any](s *S, f *F) uintptr { return uintptr(unsafe.Pointer(f)) -
             self.w('func ptrpool_%s() []*%s { return ptrs_%s }' % (st.name, st.name, st.name))
             self.w()
 
+    def emit_primes(self):
+        """prime_S: once per process, every focusable entry of S is derived by entry, by name and by type (in listing
+        order, panics ignored), so that a case's own derivation is never the first use of the container type in its
+        process - whatever the library remembers from earlier derivations is in place"""
+        for st in self.roots + getattr(self, 'wides', []):
+            L = listing(st)
+            S = st.name
+            self.w('var primeOnce_%s sync.Once\n' % S)
+            self.w('func prime_%s() {\n\tprimeOnce_%s.Do(func() {' % (S, S))
+            self.w('\t\tseq := hseq.New[%s]()\n\t\t_ = seq' % S)
+            idxs = list(range(len(L)))
+            if getattr(st, 'wide', False):
+                idxs = st.window
+            for i in idxs:
+                e = L[i]
+                T = e.gotype()
+                self.w('\t\trt.Derive(func() { _ = optics.NewLens[%s, %s](seq[%d]); _ = optics.NewReflector[%s, %s](seq[%d]) })' % (S, T, i, S, T, i))
+                if ok_name(e.key()):
+                    self.w('\t\trt.Derive(func() { _ = optics.ForProduct1[%s, %s](%s) })' % (S, T, q(e.key())))
+                self.w('\t\trt.Derive(func() { _ = optics.ForSpectrum1[%s, %s]() })' % (S, T))
+            self.w('\t})\n}\n')
+
     def emit_pools(self):
         for t in BASE:
             self.w('func pool_%s() []%s {\n\treturn []%s{%s}\n}' % (t.tid, t.go, t.go, ', '.join(t.vals)))
@@ -377,6 +403,8 @@ func off[S any, F any](s *S, f *F) uintptr { return uintptr(unsafe.Pointer(f)) -
         self.w('func %s() {' % fn)
         self.w('\tc := rt.Case{ID: %s, Site: %s, Struct: %s, Req: %s, Expect: %s, Decl: decl_%s}' % (q(cid), q(site), q(st.name), q(req), q(expect), st.name))
         self.w('\tif !rt.Want(%s, c.ID) || !rt.Begin(c) {\n\t\treturn\n\t}' % q(prop))
+        if prop in ('C01', 'C02', 'C04') and getattr(st, 'primed', False):
+            self.w('\tprime_%s()' % st.name)
         return cid
 
     def case_end(self, sig, nontrivial=True):
@@ -412,7 +440,8 @@ func off[S any, F any](s *S, f *F) uintptr { return uintptr(unsafe.Pointer(f)) -
 
     def gen_cases(self):
         r = self.r
-        for st in self.roots:
+        for k, st in enumerate(self.roots):
+            st.primed = k % 2 == 0    # every other shape is primed: both "first use" and "used before" are exercised
             L = listing(st)
             self.decls.append('const decl_%s = %s' % (st.name, q(self.decl_with_deps(st))))
             self.gen_c03(st, L)
@@ -517,6 +546,13 @@ func off[S any, F any](s *S, f *F) uintptr { return uintptr(unsafe.Pointer(f)) -
         self.w('\trt.CheckListing("C03", c, new(%s), got, want)' % S)
         self.w('\tfmapped := hseq.FMap(seq, func(t hseq.Type[%s]) int { return t.ID })' % S)
         self.w('\trt.CheckIDs("C03", c, "hseq.FMap", fmapped, rt.Iota(len(seq)))')
+        # the returned listing belongs to the caller: it may reorder, cut or overwrite it; a later unfolding is unaffected
+        self.w('\tslices.Reverse(seq)\n\tfor i := range seq {\n\t\tif i%2 == 0 {\n\t\t\tseq[i] = hseq.Type[' + S + ']{}\n\t\t}\n\t}\n\tseq = append(seq[:0], seq[len(seq)/2:]...)')
+        self.w('\tagain := hseq.New[%s]()' % S)
+        self.w('\tgot2 := make([]rt.Got3, len(again))')
+        self.w('\tfor i, t := range again {\n\t\tgot2[i] = rt.Got3{Key: t.FieldKey(), Name: t.Name, Type: t.Type, Pure: t.PureType, ID: t.ID, Off: t.RootOffs + t.Offset}\n\t}')
+        self.w('\tc.Req += " again, after the caller reordered and overwrote the listing it was given"')
+        self.w('\trt.CheckListing("C03", c, new(%s), got2, want)' % S)
         self.case_end('C03/listing/%s' % S, len(L) > 1)
 
         # the same type names declared again in a local scope with another layout: both print as main.<name>, so
@@ -1146,6 +1182,7 @@ func off[S any, F any](s *S, f *F) uintptr { return uintptr(unsafe.Pointer(f)) -
 	}
 	if common.Batch == 0 {
 		rt.MapLens()
+		rt.JoinHeads()
 	}
 }''' % (len(self.structs), len(self.roots)))
 
@@ -1164,6 +1201,7 @@ func off[S any, F any](s *S, f *F) uintptr { return uintptr(unsafe.Pointer(f)) -
                 self.w(t)
                 self.w()
             self.emit_pools()
+            self.emit_primes()
             for d in self.decls:
                 self.w(d)
             self.w()
